@@ -357,7 +357,8 @@ def run(ctx):
         for cell in order:
             lines, nmark, multi = gen_corpus(rng, rep)
             c = gen_options(rng, cell)
-            c.update(lines=lines, exists=rng.random() < 0.04)
+            c.update(lines=lines, exists=rng.random() < 0.04,
+                     eol_seed=(rng.randrange(1000) if rng.random() < 0.5 else None))
             cases.append(c)
             rep.hist("markers_per_corpus", min(nmark, 6))
             rep.hist("lines_with_2+_markers", min(multi, 3))
